@@ -360,7 +360,9 @@ pub fn scramble(toks: &[(u8, String)], rng: &mut Rng) -> String {
         if after_inline && !w.contains('\n') { format!("\n{}", w) } else { w.to_string() }
     })
 }
-/// insert comments into whitespace runs: an inline comment ending the line, or a block comment inside / ending the line
+/// insert comments into whitespace runs: an inline comment ending the line, or a block comment inside / ending the
+/// line, with a space around them or touching the code on either side; block comments of one line or of several
+/// (starting at a line end, alone on lines, between tokens)
 pub fn comment_in(toks: &[(u8, String)], rng: &mut Rng) -> String {
     let mut n = 0;
     map_ws_runs(toks, &is_ws_text, |run, after_inline| {
@@ -368,10 +370,16 @@ pub fn comment_in(toks: &[(u8, String)], rng: &mut Rng) -> String {
             return run.to_string();
         }
         n += 1;
-        match rng.below(7) {
+        match rng.below(14) {
             0 => format!(" -- c{}\n", n),
             1 => format!(" /* c{} */ ", n),
             2 => format!(" /* c{} */\n", n),
+            3 => format!("-- c{}\n", n),
+            4 => format!("/* c{} */", n),
+            5 => format!("/* c{} */\n", n),
+            6 => format!(" /* c{}\n   d{} */\n", n, n),
+            7 => format!("\n/* c{}\n   d{}\n*/\n", n, n),
+            8 => format!("/* c{}\n d{} */ ", n, n),
             _ => run.to_string(),
         }
     })
@@ -485,6 +493,63 @@ impl Gapped {
     }
 }
 
+/// Comments put into a gap so that they touch the code: no space between the comment and the token in
+/// front of it and / or behind it; inline comments, block comments of one line and of several lines.
+pub const TOUCH_SHAPES: &[&str] = &[
+    "-- zq\n",
+    "--zq\n    ",
+    "/* zq */",
+    "/* zq */ ",
+    " /* zq */",
+    "/* zq */\n",
+    "\n/* zq */",
+    "/* zq\n   d */",
+    "/* zq\n   d */\n",
+    "\n    -- zq\n",
+];
+/// Block comments of several lines (the lexer cuts them at the line breaks): starting at a line end,
+/// between tokens, touching the code, alone on lines, with an empty line inside.
+pub const ML_SHAPES: &[&str] = &[" /* zq\n   d */\n", " /* zq\n   d */ ", "/* zq\n   d */", "\n/* zq\n   d\n*/\n", " /* zq\n\n   d\n   e */\n"];
+impl Gapped {
+    /// Each gap of `which` replaced by each comment shape (not behind an inline comment, which would swallow it).
+    pub fn vary_comment(&self, which: &[usize], shapes: &[&'static str]) -> Vec<String> {
+        let mut v = vec![];
+        for &i in which {
+            for s in shapes {
+                if i > 0 && is_inline_comment(&self.toks[i - 1]) && !s.starts_with('\n') {
+                    continue;
+                }
+                v.push(self.render(&[(i, s)]));
+            }
+        }
+        v
+    }
+    /// The gaps next to a token an option acts on (`hints`: the option row's hints; symbols match inside
+    /// symbol tokens, `=` in `>=`). Hints that are not tokens (line breaks, comments) select every gap.
+    pub fn hint_gaps(&self, hints: &[&str]) -> Vec<usize> {
+        let sym = |s: &str| !s.is_empty() && s.bytes().all(|b| b.is_ascii_punctuation());
+        let hit = |t: &str| {
+            let t = t.to_ascii_uppercase();
+            hints.iter().any(|h| {
+                let h = h.trim();
+                !h.is_empty() && (t == h || (sym(h) && sym(&t) && t.contains(h)))
+            })
+        };
+        if hints.iter().any(|h| matches!(h.trim(), "" | "--" | "/*" | "COMMENT")) {
+            return self.all_gaps();
+        }
+        let n = self.toks.len();
+        (0..=n).filter(|&i| (i > 0 && hit(&self.toks[i - 1].1)) || (i < n && hit(&self.toks[i].1))).collect()
+    }
+}
+/// Length (in characters) of the line that holds the first `/* zq` of `text`, up to the end of that line.
+pub fn comment_line_len(text: &str) -> Option<usize> {
+    let p = text.find("/* zq")?;
+    let start = text[..p].rfind('\n').map(|i| i + 1).unwrap_or(0);
+    let end = text[p..].find('\n').map(|i| p + i).unwrap_or(text.len());
+    Some(text[start..end].chars().count())
+}
+
 /// Statements with several sibling constructs that a layout rule visits one after the other in one
 /// evaluation (CTEs, select targets, set operators, statements, function calls, operators, WHEN
 /// branches, value tuples): the inputs of the two-gap variations.
@@ -523,7 +588,54 @@ pub const LAYOUT_CFGS: &[LayoutCfg] = &[
     LayoutCfg { name: "comma-leading-maxlen30-tab", body: "max_line_length = 30\n[sqruff:indentation]\nindent_unit = tab\ntrailing_comments = after\n[sqruff:layout:type:comma]\nspacing_before = touch\nline_position = leading\n" },
 ];
 pub fn layout_cfg_by_name(name: &str) -> &'static LayoutCfg {
+    if name.starts_with("gen|") {
+        return intern_cfg(name);
+    }
     LAYOUT_CFGS.iter().find(|c| c.name == name).unwrap_or(&LAYOUT_CFGS[0])
+}
+/// Generated configurations: the name spells the body (`gen|` + the lines joined by `|`), so a replay
+/// input needs nothing but the name. Interned and leaked: a few dozen per process.
+fn intern_cfg(name: &str) -> &'static LayoutCfg {
+    static GEN: std::sync::Mutex<Option<HashMap<String, &'static LayoutCfg>>> = std::sync::Mutex::new(None);
+    let mut g = GEN.lock().unwrap();
+    let map = g.get_or_insert_with(HashMap::new);
+    if let Some(c) = map.get(name) {
+        return c;
+    }
+    let body = format!("{}\n", name["gen|".len()..].replace('|', "\n"));
+    let c: &'static LayoutCfg = Box::leak(Box::new(LayoutCfg { name: Box::leak(name.to_string().into_boxed_str()), body: Box::leak(body.into_boxed_str()) }));
+    map.insert(name.to_string(), c);
+    c
+}
+pub fn gen_cfg(body: &str) -> &'static LayoutCfg {
+    intern_cfg(&format!("gen|{}", body.trim_end().replace('\n', "|")))
+}
+/// Every layout option of the configuration file at every value other than its default (the option
+/// rows of `c17::KNOBS`), one option per configuration, with what a token next to a gap has to be
+/// for the option to act there (the row's hints), and optionally a line length limit.
+pub fn knob_cfgs(limit: Option<usize>) -> Vec<(&'static LayoutCfg, &'static [&'static str])> {
+    let mut v = vec![];
+    for (k, row) in crate::c17::KNOBS.iter().enumerate() {
+        for j in 0..row.2.len() {
+            v.push((gen_cfg(&crate::c17::knob_config(limit, &[(k, j)])), row.3));
+        }
+    }
+    v
+}
+/// Some options together: the ones that move commas, operators and trailing comments.
+pub fn knob_combos(limit: Option<usize>) -> Vec<&'static LayoutCfg> {
+    let find = |sec: &str, key: &str| crate::c17::KNOBS.iter().position(|r| r.0 == sec && r.1 == key).expect("knob");
+    let (bin, cmp, comma, tc, icl) = (
+        find("layout:type:binary_operator", "line_position"),
+        find("layout:type:comparison_operator", "line_position"),
+        find("layout:type:comma", "line_position"),
+        find("indentation", "trailing_comments"),
+        find("rules:layout.long_lines", "ignore_comment_lines"),
+    );
+    [vec![(bin, 0), (cmp, 0)], vec![(bin, 0), (cmp, 0), (comma, 0)], vec![(bin, 0), (tc, 0)], vec![(comma, 0), (tc, 0)], vec![(cmp, 0), (icl, 0)]]
+        .iter()
+        .map(|ch| gen_cfg(&crate::c17::knob_config(limit, ch)))
+        .collect()
 }
 pub fn mk_linter(dialect: &str, rules: &str, cfg: &LayoutCfg) -> Linter {
     // keys of the [sqruff] section come first; cfg.body may start with such keys
@@ -1033,6 +1145,17 @@ pub const FUSION_PROBES: &[(&str, &str)] = &[
     ("mysql", "SELECT 1 - -2 , `a` . `b` FROM t\n"),
 ];
 
+/// several lines with operators, commas and keywords at line starts and line ends, long and short lines: what the
+/// comment placements (d) and (e) are applied to besides the one-line probes
+pub const COMMENT_PROBES: &[(&str, &str)] = &[
+    ("ansi", "SELECT\n    1\n    + 2\n    - 3 AS x,\n    a\n    || b AS y\nFROM t\nWHERE a = 1\n    AND b\n    >= 2\n"),
+    ("ansi", "SELECT\n    a +\n    b,\n    c\n    , d\nFROM t\nWHERE\n    a =\n    1 OR\n    b < 2\n"),
+    ("ansi", "select aaaaaaaaaaaaaaaaaaaaaaaaaaaaaaaaaaaa, bbbbbbbbbbbbbbbbbbbbbbbbbbbbbbbbbbbbbbbb, ccccccccccccccccccccccccccc\nfrom t\n"),
+    ("postgres", "select o.id, o.total\nfrom orders o\njoin customers c on o.customer_id = c.id\nwhere o.status = 1\n  and o.total\n  >= 100\n"),
+    ("bigquery", "select\n  total\n  >= 100 as big,\n  case when a then 1 else 2 end as c\nfrom t\n"),
+    ("snowflake", "with x as (\n    select 1 as a\n)\nselect a\nfrom x\nwhere a = 1\n"),
+];
+
 /// minimised earlier failures that need a particular layout configuration
 pub const CFG_PROBES: &[(&str, &str, &str)] = &[
     // LT05 moves the trailing comment inside the function name node; LT01 (touch:inline) then
@@ -1096,6 +1219,11 @@ pub fn main(args: &Args) {
             items.push(Item { cls: "probe", dialect: d.to_string(), cfg: layout_cfg_by_name(c), sql: sql.to_string(), rules: "layout".to_string(), each_alone: if args.thorough() { 2 } else { 1 }, emit_cases: true, synth: 0 });
         }
         let corpus = corpus();
+        // the hand-written configurations, every layout option alone at every non-default value, some of them together
+        let mut cfg_pool: Vec<&'static LayoutCfg> = LAYOUT_CFGS.iter().collect();
+        cfg_pool.extend(knob_cfgs(None).iter().map(|c| c.0));
+        cfg_pool.extend(knob_combos(None));
+        cfg_pool.extend(knob_combos(Some(40)));
         // per-thread lexers are needed for the perturbations: build them here, single-threaded, with throwaway linters
         let mut gen_linters: HashMap<String, Linter> = HashMap::new();
         let (stride, n_cfg_per_file, max_len) = if args.thorough() { (1usize, 4usize, 12000usize) } else { (4usize, 1usize, 2500usize) };
@@ -1115,6 +1243,12 @@ pub fn main(args: &Args) {
                 ("scrambled", scramble(&toks, &mut rng)),
                 ("collapsed", collapse(&toks)),
                 ("commented", comment_in(&toks, &mut rng)),
+                // comments behind the code of a line and comment-only lines after it, lines joined (c17's disturbances)
+                ("commentate", {
+                    let t = if rng.chance(1, 2) { crate::c17::joinlines(&mut rng, &f.text) } else { f.text.clone() };
+                    let m = rng.below(4);
+                    crate::c17::commentate(&mut rng, &t, m)
+                }),
             ];
             if f.text.len() < 600 && synth_budget > 0 {
                 let n = if args.thorough() { 12 } else { 6 };
@@ -1123,7 +1257,7 @@ pub fn main(args: &Args) {
             }
             for (cls, sql) in variants {
                 for j in 0..n_cfg_per_file {
-                    let cfg = if j == 0 && cls == "corpus" { &LAYOUT_CFGS[0] } else { &LAYOUT_CFGS[rng.below(LAYOUT_CFGS.len())] };
+                    let cfg = if j == 0 && cls == "corpus" { &LAYOUT_CFGS[0] } else { cfg_pool[rng.below(cfg_pool.len())] };
                     let emit = case_budget > 0 && sql.len() < 1500;
                     if emit {
                         case_budget -= 1;
@@ -1137,8 +1271,8 @@ pub fn main(args: &Args) {
         // sites a rule visits in one evaluation (CTE after CTE, target after target, ...) differ in
         // what surrounds them — space here, line break there, nothing at a third place
         let mut seen: HashSet<(String, &'static str, String)> = HashSet::new();
-        let mut gap_case_budget = if args.thorough() { [200usize; 3] } else { [25usize; 3] };
-        let mut n_gap = [0usize; 3];
+        let mut gap_case_budget = if args.thorough() { [200usize; 5] } else { [25usize; 5] };
+        let mut n_gap = [0usize; 5];
         let mut push = |items: &mut Vec<Item>, rng: &mut Rng, cls: &'static str, k: usize, d: &str, cfg: &'static LayoutCfg, sql: String, other_cfg_1_in: usize| {
             let mut cfgs = vec![cfg];
             if other_cfg_1_in > 0 && rng.chance(1, other_cfg_1_in) {
@@ -1194,6 +1328,64 @@ pub fn main(args: &Args) {
                 }
             }
         }
+        // (d) comments that touch the code x every layout option at every non-default value: each gap next to a
+        // token the option acts on (operators for their line position, commas, keywords of the indentation
+        // switches; every gap for the options about comments and line breaks) gets each touching comment
+        // shape, under that option alone; likewise under the hand-written and combined configurations
+        // that move commas / operators / trailing comments.
+        // (e) block comments of several lines x a line length limit that makes the line on which the comment
+        // starts too long (the largest of a ladder of limits below that line's length), plain and with
+        // the options about trailing comments / comment lines.
+        const LIMITS: &[usize] = &[10, 15, 20, 25, 30, 40, 50, 60, 70, 80, 100, 120];
+        let op_hints: &[&str] = &["+", "-", "*", "/", "||", "AND", "OR", "=", "<", ">"];
+        let mut touch_cfgs: Vec<(&'static LayoutCfg, &[&str])> = knob_cfgs(None);
+        touch_cfgs.push((layout_cfg_by_name("operator-trailing"), op_hints));
+        touch_cfgs.push((layout_cfg_by_name("comma-leading"), &[","]));
+        touch_cfgs.push((layout_cfg_by_name("comma-leading-maxlen30-tab"), &[","]));
+        for c in knob_combos(None) {
+            touch_cfgs.push((c, &["+", "-", "*", "/", "||", "AND", "OR", "=", "<", ">", ","]));
+        }
+        let moving = |c: &LayoutCfg| c.body.contains("line_position") || c.body.contains("trailing_comments");
+        let mut probes2: Vec<(&str, &str)> = vec![];
+        probes2.extend(FUSION_PROBES.iter().cloned());
+        probes2.extend(SIBLING_PROBES.iter().cloned());
+        probes2.extend(CFG_PROBES.iter().filter(|p| p.2.len() < 200).map(|(d, _, s)| (*d, *s)));
+        probes2.extend(COMMENT_PROBES.iter().cloned());
+        for (d, sql) in probes2 {
+            if !DIALECTS.contains(&d) {
+                continue;
+            }
+            let gl = gen_linters.entry(d.to_string()).or_insert_with(|| mk_linter(d, "layout", &LAYOUT_CFGS[0]));
+            let Ok(toks) = lex_tokens(gl, sql) else { continue };
+            let g = gapped(&toks);
+            for (cfg, hints) in &touch_cfgs {
+                // thorough: every hinted gap x every shape; quick: one in ten under the options that move tokens
+                // past comments (line positions, trailing comments), one in forty under the others
+                let keep_1_in = if args.thorough() { 1 } else if moving(cfg) { 10 } else { 40 };
+                for v in g.vary_comment(&g.hint_gaps(hints), TOUCH_SHAPES) {
+                    if keep_1_in == 1 || rng.chance(1, keep_1_in) {
+                        push(&mut items, &mut rng, "comment-touch", 3, d, cfg, v, 0);
+                    }
+                }
+            }
+            for v in g.vary_comment(&g.all_gaps(), ML_SHAPES) {
+                let Some(len) = comment_line_len(&v) else { continue };
+                if len > 80 {
+                    push(&mut items, &mut rng, "comment-multiline", 4, d, &LAYOUT_CFGS[0], v.clone(), 0);
+                }
+                let Some(&limit) = LIMITS.iter().rev().find(|l| **l < len) else { continue };
+                if !args.thorough() && !rng.chance(1, 3) {
+                    continue;
+                }
+                push(&mut items, &mut rng, "comment-multiline", 4, d, gen_cfg(&format!("max_line_length = {}\n", limit)), v.clone(), 0);
+                if rng.chance(1, 3) {
+                    let ks = knob_cfgs(Some(limit));
+                    let about_comments: Vec<_> = ks.iter().filter(|k| k.1.contains(&"--")).collect();
+                    let c = if rng.chance(1, 2) { about_comments[rng.below(about_comments.len())].0 } else { ks[rng.below(ks.len())].0 };
+                    push(&mut items, &mut rng, "comment-multiline", 4, d, c, v, 0);
+                }
+            }
+        }
         // (c) the layout rules' own fixture snippets (they reach each rule's fix paths), as they are and
         // with single-gap deviations: 40 out of all gaps (thorough) / 4 at separator gaps (quick)
         let gl = gen_linters.entry("ansi".to_string()).or_insert_with(|| mk_linter("ansi", "layout", &LAYOUT_CFGS[0]));
@@ -1230,7 +1422,7 @@ pub fn main(args: &Args) {
         }
         out.absorb(b);
     }
-    out.stat(json!({"items": items.len(), "items_by_class": by_cls, "layout_cfgs": LAYOUT_CFGS.iter().map(|c| c.name).collect::<Vec<_>>()}));
+    out.stat(json!({"items": items.len(), "items_by_class": by_cls, "layout_cfgs": LAYOUT_CFGS.iter().map(|c| c.name.to_string()).chain(knob_cfgs(None).iter().map(|c| c.0.name.to_string())).chain(knob_combos(None).iter().map(|c| c.name.to_string())).collect::<Vec<_>>()}));
     if let Some((k, n)) = chunk {
         // child process: run every n-th item and hand the raw result lines to the parent
         use std::io::Write as _;
